@@ -488,6 +488,14 @@ class Provenance(Monitor):
         if got != want:
             ctx.violation('C08', 'Provenance', 'partial-depths',
                           'partial retrieval: depths are not (input depths + 1) with the partial object at 0', w, rp)
+        # a parameter of the function that is still there keeps whom it was credited to (the partial object is
+        # credited with what it adds, nothing else)
+        for name, q in value.parameters.items():
+            if name in sig.parameters and name in sig.sources and name not in (named or ()) and \
+                    [id(c) for c in value.sources.get(name, ())] != [id(c) for c in sig.sources.get(name, ())]:
+                ctx.violation('C08', 'Provenance', 'partial-surviving-parameter-recredited',
+                              'parameter %r survives the partial binding but is credited to other callables than before' % name, w, rp)
+                break
         for name in named or ():
             if name in value.parameters and name not in sig.parameters:
                 lst = value.sources.get(name, ())
